@@ -103,9 +103,8 @@ class SliceSpec:
         return None, None, None
 
     def pixel(self, ix, iy, comp):
-        levels = self.levels_with_box(ix, iy)
-        if not levels:
-            return None
+        # per side: the finest selected level whose bracketing cell on that side belongs to a box
+        levels = list(range(self.lim + 1))
         L, xL, _ = self.side_sample(ix, iy, 0, comp, levels)
         R, xR, _ = self.side_sample(ix, iy, 1, comp, levels)
         if L is None or R is None:
